@@ -36,13 +36,37 @@ import (
 )
 
 type vReq struct {
-	id int
-	sz int64
+	id  int
+	sz  int64
+	bad bool // Encoding.Marshal fails for this request
 }
 
 type vEnc struct{}
 
-func (vEnc) Marshal(r vReq) ([]byte, error) { return []byte(fmt.Sprintf("%d %d", r.id, r.sz)), nil }
+var (
+	vErrMarshal = errors.New("verif: request cannot be marshalled")
+	vErrStore   = errors.New("verif: storage write failed")
+)
+
+func (vEnc) Marshal(r vReq) ([]byte, error) {
+	if r.bad {
+		return nil, vErrMarshal
+	}
+	return []byte(fmt.Sprintf("%d %d", r.id, r.sz)), nil
+}
+
+// vFaultClient fails every Batch while failWrites is set (the harness sets it around ONE Offer)
+type vFaultClient struct {
+	storage.Client
+	failWrites atomic.Bool
+}
+
+func (c *vFaultClient) Batch(ctx context.Context, ops ...*storage.Operation) error {
+	if c.failWrites.Load() {
+		return vErrStore
+	}
+	return c.Client.Batch(ctx, ops...)
+}
 func (vEnc) Unmarshal(b []byte) (vReq, error) {
 	var r vReq
 	_, err := fmt.Sscanf(string(b), "%d %d", &r.id, &r.sz)
@@ -74,6 +98,7 @@ type vProd struct {
 	cancelled bool
 	enq       bool
 	selN      int64
+	fault     int // 0 none, 1 Encoding.Marshal fails, 2 the storage write fails (persistent queue)
 }
 
 type vLab struct {
@@ -132,6 +157,7 @@ type vEng struct {
 	dropped  map[int]bool
 	ndropped int
 	popped   map[int]bool
+	fclient  *vFaultClient
 	lastSum  int64
 	lastOK   bool
 	next     int // index into accepted of the next request a Read must return (skipping dropped ones)
@@ -160,7 +186,9 @@ func vNewEng(out *vOut, kind int, capacity int64, blocking, wfr, reqSizer bool) 
 			telemetry: componenttest.NewNopTelemetrySettings(),
 		}).(*persistentQueue[vReq])
 		ext := storagetest.NewMockStorageExtension(nil)
-		cl, _ := ext.GetClient(context.Background(), component.KindExporter, component.ID{}, "")
+		cl0, _ := ext.GetClient(context.Background(), component.KindExporter, component.ID{}, "")
+		e.fclient = &vFaultClient{Client: cl0}
+		var cl storage.Client = e.fclient
 		e.client = cl
 		e.pq.initClient(context.Background(), cl)
 		e.q, e.mu, e.cnd = e.pq, &e.pq.mu, e.pq.hasMoreSpace
@@ -738,6 +766,10 @@ func vErrClass(err error) int64 {
 		return 3
 	case errors.Is(err, context.Canceled):
 		return 8
+	case errors.Is(err, vErrMarshal):
+		return 9
+	case errors.Is(err, vErrStore):
+		return 22
 	}
 	return 99
 }
@@ -772,11 +804,46 @@ func (e *vEng) opOffer(p *vProd) {
 		return
 	}
 	sizeBefore, _, _ := e.snap()
+	queuedBefore := len(e.itemIDs())
 	p.started = true
-	go func() { p.res <- e.q.Offer(p.ctx, vReq{id: p.id, sz: p.sz}) }()
-	if !e.settle(2 * time.Second) {
-		e.lab(0, int64(p.id), p.sz, -1)
+	tag := int64(0)
+	if e.kind == 1 && p.fault != 0 {
+		tag = 16 + int64(p.fault) // 17 marshal error, 18 storage-write error
+	}
+	if p.fault == 2 && e.fclient != nil {
+		e.fclient.failWrites.Store(true)
+	}
+	go func() { p.res <- e.q.Offer(p.ctx, vReq{id: p.id, sz: p.sz, bad: p.fault == 1}) }()
+	stableOffer := e.settle(2 * time.Second)
+	if p.fault == 2 && e.fclient != nil {
+		e.fclient.failWrites.Store(false)
+	}
+	if !stableOffer {
+		e.lab(tag, int64(p.id), p.sz, -1)
 		e.unstable("offer")
+		return
+	}
+	if tag != 0 {
+		// an Offer that fails on Marshal / on the storage write: refused, and a refused Offer changes nothing
+		res := int64(4)
+		if p.returned {
+			res = vErrClass(p.ret)
+		}
+		e.lab(tag, int64(p.id), p.sz, res)
+		e.observe()
+		exp := int64(9)
+		if p.fault == 2 {
+			exp = 22
+		}
+		if sizeBefore+p.sz > e.cap {
+			exp = 1
+		}
+		if res != exp {
+			e.oracle("refusal-rule", fmt.Sprintf("kind=%s size_before=%d sz=%d cap=%d fault=%d: got class %d want %d", e.kindName(), sizeBefore, p.sz, e.cap, p.fault, res, exp))
+		}
+		e.refusedUnchanged(p, res, sizeBefore, queuedBefore)
+		e.out.Stat(fmt.Sprintf("faulty_offer_%d_res_%d", p.fault, res), 1)
+		e.stableOracle()
 		return
 	}
 	var res int64
@@ -827,7 +894,19 @@ func (e *vEng) opOffer(p *vProd) {
 	if res == 4 || res == 5 {
 		e.nontriv = true
 	}
+	if res == 1 || res == 2 || res == 3 {
+		e.refusedUnchanged(p, res, sizeBefore, queuedBefore)
+	}
 	e.stableOracle()
+}
+
+// a refused Offer changes nothing: same reported size, same queue contents, and the request is never handed over
+func (e *vEng) refusedUnchanged(p *vProd, res, sizeBefore int64, queuedBefore int) {
+	size, _, _ := e.snap()
+	if size != sizeBefore || len(e.itemIDs()) != queuedBefore || p.enq {
+		e.oracle("refused-offer-changed-the-queue", fmt.Sprintf("kind=%s class=%d sz=%d size %d->%d queued %d->%d enqueued=%v",
+			e.kindName(), res, p.sz, sizeBefore, size, queuedBefore, len(e.itemIDs()), p.enq))
+	}
 }
 
 // labels for waiters that moved as a consequence of a Signal
@@ -1178,7 +1257,9 @@ func vScript(out *vOut, rng *vRand, kind int, blocking, wfr bool) {
 		case 0:
 			p := e.newProd(next, vPickSize(rng, capacity, reqSizer, kind == 0, allowOver))
 			next++
-			if rng.Intn(25) == 0 { // context already ended when Offer is called
+			if kind == 1 && !blocking && rng.Intn(7) == 0 {
+				p.fault = 1 + rng.Intn(2) // Marshal fails / the storage write fails
+			} else if rng.Intn(25) == 0 { // context already ended when Offer is called
 				e.opCancel(p)
 			}
 			e.opOffer(p)
